@@ -1,0 +1,22 @@
+//go:build verif && race
+// +build verif,race
+
+package gf2p16
+
+import (
+	"runtime"
+	"unsafe"
+)
+
+// verifNoteAccess tells the race detector about the loads and stores
+// that the assembly kernels are about to perform, which it cannot see
+// by itself.
+func verifNoteAccess(in, out []byte) {
+	if len(in) > 0 {
+		runtime.RaceReadRange(unsafe.Pointer(&in[0]), len(in))
+	}
+	if len(out) > 0 {
+		runtime.RaceWriteRange(unsafe.Pointer(&out[0]), len(out))
+	}
+	verifRecordAccess(in, out)
+}
